@@ -161,6 +161,9 @@ type c16Case struct {
 
 func c16Check(k c16Case, frame, content []byte) *ev.Finding {
 	res := readBack(bytes.NewReader(frame), k.Read, len(content)+1<<20)
+	if res.skipped {
+		return nil
+	}
 	path := "Read"
 	if k.Read.WriteTo {
 		path = "WriteTo"
